@@ -7,6 +7,13 @@ correspondence: the real TrainLoss / ValLoss / EpochStop classes, call by call (
 oracle: the property's sentence evaluated directly in Python (first epoch with more than
   `patience` consecutive non-improvements; best model = epoch of the tracked best), and real
   ml.train runs with a scripted loss history under a runaway guard.
+reused: ONE real TrainLoss / ValLoss object taken through two consecutive call sequences exactly as
+  ml.train drives it (`best_model = <initial model>`, then `stop(...)` per epoch until True or a
+  cap; model ids 100+j in the first sequence, j in the second).  correspondence: stop epoch and
+  best_model id of both sequences against the Lean loop (`trainLoopReused` from the stale state the
+  model predicts after the first sequence, driver op c19.reused).  oracle: the object's best_model
+  at the end of the second sequence is one of the second sequence's models.  Plus real ml.train
+  called twice with one condition object.
 """
 from __future__ import annotations
 
@@ -158,7 +165,7 @@ class Runaway(Exception):
     pass
 
 
-def train_run(ctx: Ctx, cond_name, patience, delta, script, with_val):
+def train_run(ctx: Ctx, cond_name, patience, delta, script, with_val, cond=None):
     """script[e] = value of the single model parameter after e epochs.
     train loss of epoch e+1 = script[e] (loss is evaluated before the update, one batch per epoch),
     validation loss of epoch e+1 = script[e+1]."""
@@ -193,12 +200,14 @@ def train_run(ctx: Ctx, cond_name, patience, delta, script, with_val):
     optimizer = optax.GradientTransformation(init, update)
     X = geom.MultiImage({(0, 0): jnp.ones((2, 1, 2, 2))}, 2)
     Y = geom.MultiImage({(0, 0): jnp.ones((2, 1, 2, 2))}, 2)
-    if cond_name == "EpochStop":
+    if cond is not None:
+        pass  # a used condition object is handed in as it is
+    elif cond_name == "EpochStop":
         cond = ml.EpochStop(epochs=patience, verbose=0)
     else:
         cond = getattr(ml, cond_name)(patience=patience, min_delta=float(delta))
     limit = len(script) + 3
-    orig = cond.stop
+    orig = type(cond).stop.__get__(cond)  # the class's own method (a re-used object carries an old guard)
     calls = {"n": 0}
 
     def guarded(*a, **k):
@@ -263,13 +272,180 @@ def training_runs(ctx: Ctx, n_runs):
             ctx.violation("oracle", "ml.train stopped at the wrong epoch or returned the wrong model", case)
 
 
+# ---------------------------------------------------------------------------------------------
+# one condition object re-used for a second training call
+
+FIRST_ID = 100  # model ids of the first sequence are 100+j, of the second sequence j
+
+
+def drive_like_train(cond, cls_name, id_base, losses, rep):
+    """What ml.train does with its stop condition, on scripted monitored losses:
+    `stop_condition.best_model = model`, then `while not stop(model, epoch, loss, val, time)`.
+    At most len(losses) epochs (cap).  Returns (stopped, epoch reached)."""
+    cond.best_model = id_base
+    epoch = 0
+    t = v = None
+    while True:
+        if bool(cond.stop(id_base + epoch, epoch, t, v, 0.0)):
+            return True, epoch
+        if epoch == len(losses):
+            return False, epoch
+        x = losses[epoch]
+        epoch += 1
+        mine, decoy = conv(rep, x), conv(rep, Fraction(100) - x)
+        t, v = (mine, decoy) if cls_name == "TrainLoss" else (decoy, mine)
+
+
+def check_reused(ctx: Ctx, ml, cls_name, patience, delta, rep, first, second, family):
+    cond = getattr(ml, cls_name)(patience=patience, min_delta=float(delta))
+    st1, e1 = drive_like_train(cond, cls_name, FIRST_ID, first, rep)
+    bm1 = cond.best_model
+    st2, e2 = drive_like_train(cond, cls_name, 0, second, rep)
+    bm2 = cond.best_model
+    mo = ctx.driver.call("c19.reused", patience=patience, delta=jrat(delta),
+                         first=[jrat(x) for x in first], second=[jrat(x) for x in second])
+    impl = {"first": {"stopped": st1, "epoch": e1, "best": bm1 - FIRST_ID if isinstance(bm1, int) else repr(bm1)},
+            "second": {"stopped": st2, "epoch": e2, "best": bm2 if isinstance(bm2, int) else repr(bm2)}}
+    case = {"family": "reused", "class": cls_name, "patience": patience, "min_delta": str(delta), "rep": rep,
+            "first_losses": [str(x) for x in first], "second_losses": [str(x) for x in second],
+            "first_ids": f"{FIRST_ID}+epoch", "second_ids": "epoch", "impl": impl,
+            "model": {k: mo[k] for k in ("first", "stale", "second")}}
+    beats = mo["second"]["best"] != 0
+    # the reset of best_model is what matters when the un-reset loop would have kept a first-call model
+    keep_foreign = mo["keep"].get("best") is not None and mo["keep"]["best"] >= FIRST_ID
+    ctx.case(("reused", cls_name, patience, str(delta), rep, case["first_losses"], case["second_losses"]),
+             len(second) >= 2 and len(first) >= 1)
+    # keep one sample per kind of case in the evidence (the generic sample slots are taken early)
+    kinds = ctx.notes.setdefault("reused_samples", {})
+    kind = f"{family}; second {'beats' if beats else 'never beats'} the stale best; first {'stopped' if st1 else 'cut by cap'}"
+    if kind not in kinds and len(second) >= 3:
+        kinds[kind] = case
+    ctx.hist("reused_second", "beats stale best" if beats else "never beats stale best (own initial model)")
+    ctx.hist("reused_first", "stopped" if st1 else "cap")
+    ctx.hist("reused_reset_matters", keep_foreign)
+    ctx.hist("reused_class", cls_name)
+    # the model's own cross-checks (proved: reused_terminates / reused_spec)
+    if mo["second"]["stopped"] and (mo["direct"] != mo["second"] or mo["spec"] != mo["second"]):
+        ctx.violation("correspondence", "Lean trainLoopReused / pRun state / staleSince-staleModel spec disagree",
+                      dict(case, lean=mo))
+    # ORACLE: the best_model at the end of the second sequence is one of the second sequence's models
+    own = isinstance(bm2, int) and not isinstance(bm2, bool) and 0 <= bm2 <= e2
+    if not own:
+        ctx.violation("oracle", f"{cls_name} re-used for a second training call ends with a best_model "
+                      f"({bm2!r}) that is not one of that call's models 0..{e2}", case)
+    elif impl["first"] != mo["first"] or impl["second"] != mo["second"]:
+        ctx.violation("correspondence", f"re-used {cls_name}: stop epoch / best_model differ from the Lean loop "
+                      "(trainLoopReused from the predicted stale state)", case)
+
+
+def reused_conditions(ctx: Ctx, ml):
+    quick = ctx.tier == "quick"
+    top = ALPHABET[-1]  # never an improvement once something has been tracked (min_delta >= 0)
+    l1, l2 = (2, 3) if quick else (3, 3)
+    firsts = [list(h) for n in range(1, l1 + 1) for h in itertools.product(ALPHABET, repeat=n)]
+    seconds = [list(h) for n in range(1, l2 + 1) for h in itertools.product(ALPHABET, repeat=n)]
+    k = 0
+    for patience in range(4):
+        tail = [top] * (patience + 1)
+        for delta in DELTAS:
+            for f in firsts:
+                # first call both run to its stop (stale counter patience+1) and cut by the cap
+                for first in (f + tail, f):
+                    for sec in seconds:
+                        for cls_name in ("TrainLoss", "ValLoss"):
+                            k += 1
+                            check_reused(ctx, ml, cls_name, patience, delta, REPS[k % 3], first, sec + tail,
+                                         "enumerated")
+    # random dyadic histories, larger patience, dyadic min_delta, the scalar type the training loop supplies
+    rng = ctx.rng
+    dyadic_deltas = [Fraction(0), Fraction(1, 4), Fraction(3, 4), Fraction(2)]
+    for i in range(1500 if quick else 12000):
+        patience = int(rng.integers(0, 6))
+        delta = dyadic_deltas[int(rng.integers(len(dyadic_deltas)))]
+        lo = int(rng.integers(1, 30))
+        first = [Fraction(int(v), 4) for v in rng.integers(lo, lo + 12, size=int(rng.integers(1, 9)))]
+        # second call: sometimes above the first's range (never beats it), sometimes overlapping / below
+        shift = [14, 0, -6][int(rng.integers(3))]
+        lo2 = max(1, lo + shift)
+        second = [Fraction(int(v), 4) for v in rng.integers(lo2, lo2 + 12, size=int(rng.integers(1, 9)))]
+        if rng.integers(4) > 0:
+            second += [second[-1]] * (patience + 1 + int(rng.integers(3)))
+        if rng.integers(2):
+            first += [first[-1]] * (patience + 1)
+        cls_name = ["TrainLoss", "ValLoss"][int(rng.integers(2))]
+        check_reused(ctx, ml, cls_name, patience, delta, REPS[3 if i % 3 == 0 else i % 3], first, second, "random")
+
+
+def reused_train_configs():
+    h = Fraction(1, 2)
+    return [
+        # second call never beats the first call's best (2): must return its own initial model
+        ("TrainLoss", 1, Fraction(0), [5, 4, 2, 3, 3, 3], [6 + h, 5 + h, 4 + h, 4 + h, 4 + h], False),
+        # second call beats it at its epoch 2
+        ("ValLoss", 1, Fraction(0), [9, 5, 4, 6, 6, 6], [7 + h, 3 + h, 1 + h, 2 + h, 2 + h, 2 + h, 2 + h], True),
+        ("TrainLoss", 0, Fraction(1, 2), [8, 6, 6, 6], [5 + h, 5 + h, 5 + h], False),
+        ("ValLoss", 2, Fraction(0), [9, 3, 4, 5, 6, 6], [2 + h, 8 + h, 8 + h, 8 + h, 8 + h], True),
+        ("TrainLoss", 2, Fraction(1), [4, 3, 3, 3, 3, 3], [3 + h, 2 + h, 1 + h, 1 + h, 1 + h, 1 + h, 1 + h], True),
+    ]
+
+
+def reused_training_runs(ctx: Ctx, configs):
+    """real ml.train called twice with ONE condition object; parameter values of the second call are
+    k+1/2, of the first call integers, so that a model kept from the first call is recognisable"""
+    import ginjax.ml as ml
+
+    for cond_name, patience, delta, sc1, sc2, with_val in configs:
+        sc1 = [Fraction(v) for v in sc1]
+        sc2 = [Fraction(v) for v in sc2]
+        cut = (lambda sc: sc[1:]) if cond_name == "ValLoss" else (lambda sc: sc[:-1])
+        mo = ctx.driver.call("c19.reused", patience=patience, delta=jrat(delta),
+                             first=[jrat(x) for x in cut(sc1)], second=[jrat(x) for x in cut(sc2)])
+        cond = getattr(ml, cond_name)(patience=patience, min_delta=float(delta))
+        st1, e1, w1 = train_run(ctx, cond_name, patience, delta, sc1, with_val, cond=cond)
+        st2, e2, w2 = train_run(ctx, cond_name, patience, delta, sc2, with_val, cond=cond)
+        case = {"family": "reused-train", "condition": cond_name, "patience": patience, "min_delta": str(delta),
+                "first_parameter_script": [str(x) for x in sc1], "second_parameter_script": [str(x) for x in sc2],
+                "validation": with_val,
+                "impl": {"first": {"stopped": st1, "stop_epoch": e1, "returned_w": w1},
+                         "second": {"stopped": st2, "stop_epoch": e2, "returned_w": w2}},
+                "model": {k: mo[k] for k in ("first", "stale", "second")}}
+        ctx.case(("reused-train", cond_name, patience, str(delta), case["first_parameter_script"],
+                  case["second_parameter_script"], with_val), True)
+        ctx.notes.setdefault("reused_train_runs", []).append(case)
+        ctx.hist("train_run", "reused " + cond_name)
+        if not (mo["first"]["stopped"] and mo["second"]["stopped"]):
+            continue  # scripted histories do not trigger the condition within the script: nothing pinned
+        if not (st1 and st2):
+            ctx.violation("oracle", "ml.train with a re-used condition did not terminate on a non-improving "
+                          "history (runaway guard hit)", case)
+            continue
+        own = [float(x) for x in sc2[: e2 + 1]]
+        want1 = (mo["first"]["epoch"], float(sc1[mo["first"]["best"]]))
+        want2 = (mo["second"]["epoch"], float(sc2[mo["second"]["best"]]))
+        case["expected"] = {"first": list(want1), "second": list(want2)}
+        if w2 not in own:
+            ctx.violation("oracle", "second ml.train call with a re-used condition object returned a model that "
+                          "is not one of that call's models", case)
+        elif (e1, w1) != want1 or (e2, w2) != want2:
+            ctx.violation("correspondence", "ml.train with a re-used condition: stop epoch / returned model "
+                          "differ from the Lean loop (trainLoopReused)", case)
+
+
 def replay(ctx: Ctx, rep: dict):
     """re-run the single stored history (or training configuration)"""
     import ginjax.ml as ml
 
     case = rep.get("case", {})
     ctx.rule = "replay of one stored case"
-    if "losses" in case and "class" in case and case["class"] in ("TrainLoss", "ValLoss"):
+    if case.get("family") == "reused":
+        check_reused(ctx, ml, case["class"], case["patience"], Fraction(case["min_delta"]), case["rep"],
+                     [Fraction(x) for x in case["first_losses"]], [Fraction(x) for x in case["second_losses"]],
+                     "replay")
+    elif case.get("family") == "reused-train":
+        reused_training_runs(ctx, [(case["condition"], case["patience"], Fraction(case["min_delta"]),
+                                    [Fraction(x) for x in case["first_parameter_script"]],
+                                    [Fraction(x) for x in case["second_parameter_script"]], case["validation"])])
+    elif "losses" in case and "class" in case and case["class"] in ("TrainLoss", "ValLoss"):
         hist = [Fraction(x) for x in case["losses"]]
         delta = Fraction(case["min_delta"])
         mon = "train" if case["class"] == "TrainLoss" else "val"
@@ -298,8 +474,20 @@ def run(ctx: Ctx):
         "{python float, numpy.float32, numpy.float64, 0-d jax array} (all four up to length L-1, two on "
         "length L), driven call by call through the real classes after one loss-less call; EpochStop for "
         "epochs 0..5; plus real ml.train runs with a scripted loss history under a runaway guard. "
+        "Family 'reused': ONE TrainLoss/ValLoss object through two consecutive sequences driven as ml.train does "
+        "(best_model = initial model, then stop(model, epoch, losses) per epoch until True or the cap; model ids "
+        "100+epoch in the first sequence, epoch in the second): first histories over the alphabet up to length "
+        "(quick 2, thorough 3), each both run to its stop and cut by the cap, x second histories up to length "
+        "3 followed by patience+1 non-improving epochs, x patience 0..3 x the three "
+        "min_deltas x both classes, plus random dyadic (k/4) histories with patience 0..5, min_delta in "
+        "{0,1/4,3/4,2}, second range above / overlapping / below the first's, 0-d jax scalars on a third of "
+        "them; stop epochs and best_model ids compared with Lean trainLoopReused from the predicted stale "
+        "state, oracle = the final best_model is one of the second sequence's models; and real ml.train "
+        "called twice with one condition object (quick 2, thorough 5 configurations). "
         "A case is non-trivial when its history has length >= 2 and contains both an improvement after "
-        "the first loss and a non-improvement; distinct = distinct (class, patience, delta, rep, history)."
+        "the first loss and a non-improvement (family 'reused': first sequence non-empty, i.e. the object is "
+        "genuinely stale, and second sequence of length >= 2); distinct = distinct (class, patience, delta, rep, "
+        "history or pair of histories)."
     )
     ctx.assumptions = ["NaN and infinite losses are excluded", "float(x) of the alphabet values is exact"]
     ctx.trusted_extra = ["optax/equinox/jax pmap as used by ml.train (exercised, not modelled)"]
@@ -307,5 +495,7 @@ def run(ctx: Ctx):
     enumerate_histories(ctx, ml, max_len)
     epoch_stop(ctx, ml)
     training_runs(ctx, 3 if ctx.tier == "quick" else 10)
+    reused_conditions(ctx, ml)
+    reused_training_runs(ctx, reused_train_configs()[: 2 if ctx.tier == "quick" else 5])
     ctx.exhaustive = True
     ctx.notes["exhaustive_scope"] = f"histories up to length {max_len} over a 4-value alphabet"
